@@ -152,6 +152,42 @@ Theorem C15_shorter_noop_after_forward_refs : forall st m,
 Proof. exact shorter_noop_on_string_annotations. Qed.
 Print Assumptions C15_shorter_noop_after_forward_refs.
 
+(* ---- reserved names (arguments.py loop + ExtractOperations.process_name, /repo edeb7cc) [full]: the names handed
+        out are fresh w.r.t. the reserved set and pairwise distinct; with the plugin's hook NO argument is ever named
+        like an extracted constant (the former finding C15-extract-constant-shadowed cannot occur); outside that
+        class the hook changes no name ---- *)
+Theorem C15_reserved_names_fresh : forall hook processed used n,
+  In n (assign_names hook used processed) -> mem n used = false.
+Proof. exact assign_names_fresh. Qed.
+Print Assumptions C15_reserved_names_fresh.
+
+Theorem C15_reserved_names_distinct : forall hook processed used, NoDup (assign_names hook used processed).
+Proof. exact assign_names_nodup. Qed.
+
+Theorem C15_arguments_never_named_like_constants : forall st used processed n,
+  (forall c, In c (ex_constants st) -> exists op, c = const_name op) ->
+  In n (assign_names (ex_process_name st) used processed) -> mem n (ex_constants st) = false.
+Proof. exact names_avoid_constants. Qed.
+Print Assumptions C15_arguments_never_named_like_constants.
+
+Theorem C15_recorded_constants_are_const_names : forall st op c,
+  (forall c0, In c0 (ex_constants st) -> exists o, c0 = const_name o) ->
+  In c (ex_constants (ex_record st op)) -> exists o, c = const_name o.
+Proof. exact ex_record_constants. Qed.
+
+Theorem C15_process_name_identity_outside_class : forall st used processed,
+  (forall p, In p processed -> mem p (ex_constants st) = false) ->
+  assign_names (ex_process_name st) used processed = assign_names (fun s => s) used processed.
+Proof. intros. eapply process_name_id_outside_class; eauto. Qed.
+Print Assumptions C15_process_name_identity_outside_class.
+
+(* regression example of the former finding: query Find($FIND_GQL: String, $other: Int) and a variable gql *)
+Example C15_reserved_names_regression :
+  assign_names (avoid_all ["FIND_GQL"; "COUNT_GQL"]) ["self"; "kwargs"; "gql"; "UNSET"; "Find"] ["FIND_GQL"; "other"; "gql"; "Find"]
+    = ["FIND_GQL_"; "other"; "gql_"; "Find_"] /\
+  assign_names (fun s => s) ["self"; "kwargs"; "gql"; "UNSET"; "Find"] ["FIND_GQL"; "other"] = ["FIND_GQL"; "other"].
+Proof. vm_compute. split; reflexivity. Qed.
+
 (* ---- a concrete package: witnesses, non-vacuity, order dependence ---- *)
 Definition P (n : string) (a : ann) : param := {| p_name := n; p_ann := Some a; p_default := None |}.
 Definition mini_method : pmethod :=
